@@ -653,7 +653,7 @@ theorem wrap64_min : wrap64 (-2 ^ 63 * -1) = -2 ^ 63 := by decide
 theorem getD_drop (cs : List Nat) (k j d : Nat) : (cs.drop k).getD j d = cs.getD (k + j) d := by
   rw [List.getD_eq_getElem?_getD, List.getD_eq_getElem?_getD, List.getElem?_drop]
 
-theorem count_bound (c s i : Int) (hc : 0 < c) (hs : 0 < s) (hi0 : 0 ≤ i)
+theorem count_bound (c s i : Int) (hc : 0 < c) (hs : 0 < s) (_hi0 : 0 ≤ i)
     (hi : i < (if Int.tmod c s > 0 then Int.tdiv c s + 1 else Int.tdiv c s)) : i * s < c := by
   have e : s * Int.tdiv c s + Int.tmod c s = c := Int.mul_tdiv_add_tmod c s
   have m0 : 0 ≤ Int.tmod c s := Int.tmod_nonneg s (by omega)
@@ -1014,5 +1014,382 @@ theorem runeCount_take_boundary (cs : List Nat) (hcs : Scalars cs) (k : Nat) (hk
     runeCount ((encodeAll cs).take (encodeAll (cs.take k)).length) = k := by
   conv => lhs; arg 1; arg 2; rw [encodeAll_take_drop k cs]
   rw [List.take_left, Utf8.runeCount_encodeAll _ (hcs.take k), List.length_take]; omega
+
+
+theorem isEmpty_encodeAll (cs : List Nat) (hne : cs ≠ []) : (encodeAll cs).isEmpty = false := by
+  cases hs : encodeAll cs with
+  | nil => exact absurd ((encodeAll_eq_nil cs).1 hs) hne
+  | cons b bs => rfl
+
+/-- what `indexOf` computes, on any lists: the least position at which `p` occurs -/
+theorem indexOfAux_spec : ∀ (s p : List Nat) (off k : Nat), indexOfAux off s p = some k →
+    ∃ i, k = off + i ∧ i ≤ s.length ∧ p <+: s.drop i ∧ ∀ j, j < i → ¬ p <+: s.drop j
+  | [], p, off, k, h => by
+    rw [indexOfAux_eq] at h
+    split at h
+    · rename_i hp
+      injection h with h
+      exact ⟨0, by omega, by simp, List.isPrefixOf_iff_prefix.1 hp, by intro j hj; omega⟩
+    · cases h
+  | a :: t, p, off, k, h => by
+    rw [indexOfAux_eq] at h
+    split at h
+    · rename_i hp
+      injection h with h
+      exact ⟨0, by omega, by simp, List.isPrefixOf_iff_prefix.1 hp, by intro j hj; omega⟩
+    · rename_i hp
+      obtain ⟨i, hk, hi, hpi, hmin⟩ := indexOfAux_spec t p (off + 1) k h
+      refine ⟨i + 1, by omega, by simp only [List.length_cons]; omega, by simpa using hpi, ?_⟩
+      intro j hj
+      match j with
+      | 0 => rw [List.drop_zero]; exact fun hh => hp (List.isPrefixOf_iff_prefix.2 hh)
+      | j + 1 => rw [List.drop_succ_cons]; exact hmin j (by omega)
+
+theorem indexOfAux_none : ∀ (s p : List Nat) (off : Nat), indexOfAux off s p = none →
+    ∀ j, ¬ p <+: s.drop j
+  | [], p, off, h, j => by
+    rw [indexOfAux_eq] at h
+    split at h
+    · cases h
+    · rename_i hp
+      rw [List.drop_nil]; exact fun hh => hp (List.isPrefixOf_iff_prefix.2 hh)
+  | a :: t, p, off, h, j => by
+    rw [indexOfAux_eq] at h
+    split at h
+    · cases h
+    · rename_i hp
+      match j with
+      | 0 => rw [List.drop_zero]; exact fun hh => hp (List.isPrefixOf_iff_prefix.2 hh)
+      | j + 1 => rw [List.drop_succ_cons]; exact indexOfAux_none t p (off + 1) h j
+
+/-! ### `strings.LastIndex` -/
+
+theorem lastIndexOfAux_eq (off : Nat) (s p : Bytes) (best : Option Nat) :
+    lastIndexOfAux off s p best =
+      match s with
+      | [] => (if p.isPrefixOf s then some off else best)
+      | _ :: t => lastIndexOfAux (off + 1) t p (if p.isPrefixOf s then some off else best) := by
+  rw [lastIndexOfAux.eq_def]; cases s <;> rfl
+
+def orBest (r : Option Nat) (f : Nat → Nat) (best : Option Nat) : Option Nat :=
+  match r with
+  | some k => some (f k)
+  | none => best
+
+theorem lastIndexOfAux_shift : ∀ (s p : List Nat) (off : Nat) (best : Option Nat),
+    lastIndexOfAux off s p best = orBest (lastIndexOfAux 0 s p none) (off + ·) best
+  | [], p, off, best => by
+    rw [lastIndexOfAux_eq off, lastIndexOfAux_eq 0]
+    simp only
+    split <;> rfl
+  | a :: t, p, off, best => by
+    rw [lastIndexOfAux_eq off, lastIndexOfAux_eq 0]
+    simp only
+    rw [lastIndexOfAux_shift t p (off + 1), lastIndexOfAux_shift t p (0 + 1)]
+    cases lastIndexOfAux 0 t p none with
+    | some k => simp only [orBest]; congr 1; omega
+    | none =>
+      simp only [orBest]
+      split <;> rfl
+
+theorem lastIndexOfAux_skip (p : Bytes) : ∀ (x y : Bytes) (off : Nat) (best : Option Nat),
+    (∀ j, j < x.length → p.isPrefixOf ((x ++ y).drop j) = false) →
+    lastIndexOfAux off (x ++ y) p best = lastIndexOfAux (off + x.length) y p best
+  | [], y, off, best, _ => rfl
+  | a :: x, y, off, best, h => by
+    rw [lastIndexOfAux_eq off]
+    have h0 := h 0 (by simp)
+    rw [List.drop_zero] at h0
+    simp only [List.cons_append] at h0 ⊢
+    simp only [h0, Bool.false_eq_true, if_false]
+    rw [lastIndexOfAux_skip p x y (off + 1) best (fun j hj => by
+      have := h (j + 1) (by simpa using hj)
+      simpa using this)]
+    congr 1; simp only [List.length_cons]; omega
+
+/-- skipping one whole code point: only its first byte can start a match -/
+theorem lastIndexOfAux_skip_rune (ps : List Nat) (hps : Scalars ps) (hne : ps ≠ []) (c : Nat)
+    (hc : isScalar c = true) (y : Bytes) (off : Nat) (best : Option Nat) :
+    lastIndexOfAux off (encodeRune c ++ y) (encodeAll ps) best
+      = lastIndexOfAux (off + (encodeRune c).length) y (encodeAll ps)
+          (if (encodeAll ps).isPrefixOf (encodeRune c ++ y) then some off else best) := by
+  have hint := not_prefix_interior ps hps hne c hc y
+  cases he : encodeRune c with
+  | nil => exact absurd he (encodeRune_ne_nil c)
+  | cons b0 t =>
+    rw [he] at hint
+    rw [lastIndexOfAux_eq off]
+    simp only [List.cons_append]
+    rw [lastIndexOfAux_skip _ t y (off + 1) _ (fun j hj => by
+      have := hint (j + 1) (by omega) (by simpa using hj)
+      simpa using this)]
+    congr 1; simp only [List.length_cons]; omega
+
+theorem lastIndexOfAux_encodeAll (ps : List Nat) (hps : Scalars ps) (hne : ps ≠ []) :
+    ∀ cs : List Nat, Scalars cs → ∀ (off : Nat) (best : Option Nat),
+    lastIndexOfAux off (encodeAll cs) (encodeAll ps) best
+      = orBest (lastIndexOfAux 0 cs ps none) (fun k => off + (encodeAll (cs.take k)).length) best
+  | [], _, off, best => by
+    have : ps.isPrefixOf [] = false := by
+      cases ps with
+      | nil => exact absurd rfl hne
+      | cons => rfl
+    rw [lastIndexOfAux_eq off, lastIndexOfAux_eq 0, isPrefixOf_encodeAll ps [] hps Scalars.nil]
+    simp only [encodeAll_nil, this]
+    rfl
+  | c :: cs, hcs, off, best => by
+    rw [lastIndexOfAux_eq 0 (c :: cs)]
+    simp only
+    rw [encodeAll_cons, lastIndexOfAux_skip_rune ps hps hne c hcs.head, ← encodeAll_cons,
+      isPrefixOf_encodeAll ps _ hps hcs, lastIndexOfAux_encodeAll ps hps hne cs hcs.tail,
+      lastIndexOfAux_shift cs ps (0 + 1)]
+    cases lastIndexOfAux 0 cs ps none with
+    | some k =>
+      simp only [orBest]
+      congr 1
+      have : 0 + 1 + k = k + 1 := by omega
+      rw [this, List.take_succ_cons, encodeAll_cons, List.length_append]; omega
+    | none =>
+      simp only [orBest]
+      split <;> simp [encodeAll_nil]
+
+theorem lastIndexOfAux_le : ∀ (s p : List Nat) (off : Nat) (best : Option Nat) (k : Nat),
+    lastIndexOfAux off s p best = some k → best = some k ∨ k ≤ off + s.length
+  | [], p, off, best, k, h => by
+    rw [lastIndexOfAux_eq] at h
+    simp only at h
+    split at h
+    · injection h with h; right; omega
+    · left; exact h
+  | a :: t, p, off, best, k, h => by
+    rw [lastIndexOfAux_eq] at h
+    simp only at h
+    rcases lastIndexOfAux_le t p (off + 1) _ k h with h1 | h1
+    · split at h1
+      · injection h1 with h1; right; omega
+      · left; exact h1
+    · right; simp only [List.length_cons]; omega
+
+theorem lastIndexOf_encodeAll (cs ps : List Nat) (hcs : Scalars cs) (hps : Scalars ps) (hne : ps ≠ []) :
+    lastIndexOf (encodeAll cs) (encodeAll ps)
+      = (lastIndexOf cs ps).map (fun k => (encodeAll (cs.take k)).length) := by
+  unfold lastIndexOf
+  rw [lastIndexOfAux_encodeAll ps hps hne cs hcs 0 none]
+  cases lastIndexOfAux 0 cs ps none <;> simp [orBest]
+
+/-! ### `start` / `finish` offsets of the `find_*` functions -/
+
+theorem runeOffset_succ (i : Nat) (s : Bytes) (acc : Nat) (h : s ≠ []) :
+    runeOffset (i + 1) s acc = runeOffset i (s.drop (decodeRune s).2) (acc + (decodeRune s).2) := by
+  cases s with
+  | nil => exact absurd rfl h
+  | cons b bs => rfl
+
+theorem runeOffset_encodeAll (i : Nat) : ∀ (cs : List Nat) (acc : Nat), Scalars cs →
+    runeOffset i (encodeAll cs) acc
+      = if i ≤ cs.length then some (acc + (encodeAll (cs.take i)).length) else none := by
+  induction i with
+  | zero => intro cs acc _; simp [runeOffset, encodeAll_nil]
+  | succ i ih =>
+    intro cs acc h
+    cases cs with
+    | nil => simp [runeOffset, encodeAll_nil]
+    | cons c cs =>
+      rw [runeOffset_succ _ _ _ (encodeAll_cons_ne_nil c cs), decodeRune_cons c cs h.head]
+      simp only [drop_cons]
+      rw [ih cs _ h.tail]
+      simp only [List.length_cons, Nat.add_le_add_iff_right, List.take_succ_cons, encodeAll_cons,
+        List.length_append, Nat.add_assoc]
+
+/-- the `start` argument of `find_first` / `find_last` is a code point position -/
+theorem startOffset_encodeAll (cs : List Nat) (h : Scalars cs) (i : Int) :
+    startOffset (encodeAll cs) i =
+      if i < 0 then some 0
+      else if i ≤ cs.length then some (encodeAll (cs.take i.toNat)).length
+      else none := by
+  unfold startOffset
+  by_cases h0 : i < 0
+  · simp [h0]
+  · simp only [h0, if_false]
+    have hl := length_le_encodeAll cs
+    by_cases h1 : i > ((encodeAll cs).length : Int)
+    · have : ¬ i ≤ (cs.length : Int) := by omega
+      simp [h1, this]
+    · simp only [h1, if_false]
+      rw [runeOffset_encodeAll _ cs 0 h]
+      by_cases h2 : i ≤ (cs.length : Int)
+      · have : i.toNat ≤ cs.length := by omega
+        simp [h2, this]
+      · have : ¬ i.toNat ≤ cs.length := by omega
+        simp [h2, this]
+
+/-- the `finish` argument is a code point position, clamped to the end of the string -/
+theorem finishOffset_encodeAll (cs : List Nat) (h : Scalars cs) (j : Int) :
+    finishOffset (encodeAll cs) j =
+      if j < 0 then none else some (encodeAll (cs.take j.toNat)).length := by
+  unfold finishOffset
+  by_cases h0 : j < 0
+  · simp [h0]
+  · simp only [h0, if_false]
+    have hl := length_le_encodeAll cs
+    by_cases h1 : j > ((encodeAll cs).length : Int)
+    · have : cs.length ≤ j.toNat := by omega
+      simp [h1, List.take_of_length_le this]
+    · simp only [h1, if_false]
+      rw [runeOffset_encodeAll _ cs 0 h]
+      by_cases h2 : j.toNat ≤ cs.length
+      · simp [h2]
+      · have : cs.length ≤ j.toNat := by omega
+        simp [h2, List.take_of_length_le this]
+
+theorem findFrom_str (last : Bool) (s p : Bytes) (i : Int) :
+    findFrom last (.str s) (.str p) (.num (.int .i64 i)) =
+      match startOffset s i with
+      | none => .ok .null
+      | some off =>
+        match (if last then lastIndexOf (s.drop off) p else indexOf (s.drop off) p) with
+        | none => .ok .null
+        | some r => .ok (runeIndexVal s (r + off)) := rfl
+
+theorem drop_boundary (cs : List Nat) (k : Nat) :
+    (encodeAll cs).drop (encodeAll (cs.take k)).length = encodeAll (cs.drop k) := by
+  conv => lhs; arg 2; rw [encodeAll_take_drop k cs]
+  exact List.drop_left
+
+theorem runeIndexVal_boundary (cs : List Nat) (hcs : Scalars cs) (k r : Nat) (hk : k + r ≤ cs.length) :
+    runeIndexVal (encodeAll cs) ((encodeAll ((cs.drop k).take r)).length + (encodeAll (cs.take k)).length)
+      = .num (.int .i64 ((r + k : Nat) : Int)) := by
+  have e : (encodeAll ((cs.drop k).take r)).length + (encodeAll (cs.take k)).length
+      = (encodeAll (cs.take (k + r))).length := by
+    rw [List.take_add, encodeAll_append, List.length_append]; omega
+  unfold runeIndexVal
+  rw [e, runeCount_take_boundary cs hcs (k + r) hk, Nat.add_comm]
+
+theorem startOffset_encodeAll' (cs : List Nat) (h : Scalars cs) (i : Int) :
+    startOffset (encodeAll cs) i =
+      if i > cs.length then none else some (encodeAll (cs.take i.toNat)).length := by
+  rw [startOffset_encodeAll cs h]
+  by_cases h0 : i < 0
+  · have : ¬ i > (cs.length : Int) := by omega
+    have e : i.toNat = 0 := by omega
+    simp [h0, this, e, encodeAll_nil]
+  · by_cases h1 : i ≤ (cs.length : Int)
+    · have : ¬ i > (cs.length : Int) := by omega
+      simp [h0, h1, this]
+    · have : i > (cs.length : Int) := by omega
+      simp [h0, h1, this]
+
+theorem indexOf_le (s p : List Nat) (k : Nat) (h : indexOf s p = some k) : k ≤ s.length := by
+  have := indexOfAux_le s p 0 k h; omega
+
+theorem lastIndexOf_le (s p : List Nat) (k : Nat) (h : lastIndexOf s p = some k) : k ≤ s.length := by
+  rcases lastIndexOfAux_le s p 0 none k h with h1 | h1
+  · cases h1
+  · omega
+
+
+
+theorem findBetween_str (last : Bool) (s p : Bytes) (i j : Int) :
+    findBetween last (.str s) (.str p) (.num (.int .i64 i)) (.num (.int .i64 j)) =
+      match startOffset s i with
+      | none => .ok .null
+      | some a =>
+        match finishOffset s j with
+        | none => .ok .null
+        | some b =>
+          if a > b then .ok .null
+          else
+            match (if last then lastIndexOf ((s.drop a).take (b - a)) p
+                   else indexOf ((s.drop a).take (b - a)) p) with
+            | none => .ok .null
+            | some r => .ok (runeIndexVal s (r + a)) := by
+  unfold findBetween
+  simp only [strArg, intArg, toInt, bind, Res.bind, pure]
+  cases startOffset s i with
+  | none => rfl
+  | some a =>
+    simp only
+    cases finishOffset s j with
+    | none => rfl
+    | some b => rfl
+
+theorem take_boundary_len_mono (cs : List Nat) (a b : Nat) (h : a ≤ b) :
+    (encodeAll (cs.take a)).length + (encodeAll ((cs.drop a).take (b - a))).length
+      = (encodeAll (cs.take b)).length := by
+  have : b = a + (b - a) := by omega
+  conv => rhs; rw [this, List.take_add, encodeAll_append, List.length_append]
+
+theorem take_boundary_len_strict (cs : List Nat) (a b : Nat) (h : b < a) (ha : a ≤ cs.length) :
+    (encodeAll (cs.take b)).length < (encodeAll (cs.take a)).length := by
+  have e := take_boundary_len_mono cs b a (by omega)
+  have : ((cs.drop b).take (a - b)).length ≤ (encodeAll ((cs.drop b).take (a - b))).length :=
+    length_le_encodeAll _
+  rw [List.length_take, List.length_drop] at this
+  omega
+
+theorem window_boundary (cs : List Nat) (a b : Nat) (h : a ≤ b) :
+    ((encodeAll cs).drop (encodeAll (cs.take a)).length).take
+        ((encodeAll (cs.take b)).length - (encodeAll (cs.take a)).length)
+      = encodeAll ((cs.drop a).take (b - a)) := by
+  rw [drop_boundary, ← take_boundary_len_mono cs a b h, Nat.add_sub_cancel_left]
+  conv => lhs; arg 2; rw [encodeAll_take_drop (b - a) (cs.drop a)]
+  exact List.take_left
+
+theorem finishOffset_encodeAll' (cs : List Nat) (h : Scalars cs) (j : Int) :
+    finishOffset (encodeAll cs) j =
+      if j < 0 then none else some (encodeAll (cs.take (min j.toNat cs.length))).length := by
+  rw [finishOffset_encodeAll cs h]
+  have e : cs.take (min j.toNat cs.length) = cs.take j.toNat := by
+    by_cases h1 : j.toNat ≤ cs.length
+    · rw [Nat.min_eq_left h1]
+    · have h2 : cs.length ≤ j.toNat := by omega
+      rw [Nat.min_eq_right h2, List.take_of_length_le h2, List.take_of_length_le (Nat.le_refl _)]
+  rw [e]
+
+/-- what `lastIndexOf` computes, on any lists: the greatest position at which `p` occurs -/
+theorem lastIndexOfAux_spec : ∀ (s p : List Nat) (off : Nat) (best : Option Nat) (k : Nat),
+    lastIndexOfAux off s p best = some k →
+    (best = some k ∧ ∀ j, j ≤ s.length → ¬ p <+: s.drop j) ∨
+    (∃ i, k = off + i ∧ i ≤ s.length ∧ p <+: s.drop i ∧ ∀ j, i < j → j ≤ s.length → ¬ p <+: s.drop j)
+  | [], p, off, best, k, h => by
+    rw [lastIndexOfAux_eq] at h
+    simp only at h
+    split at h
+    · rename_i hp
+      injection h with h
+      exact Or.inr ⟨0, by omega, by simp, List.isPrefixOf_iff_prefix.1 hp,
+        by intro j h1 h2; simp only [List.length_nil] at h2; omega⟩
+    · rename_i hp
+      refine Or.inl ⟨h, ?_⟩
+      intro j _
+      rw [List.drop_nil]; exact fun hh => hp (List.isPrefixOf_iff_prefix.2 hh)
+  | a :: t, p, off, best, k, h => by
+    rw [lastIndexOfAux_eq] at h
+    simp only at h
+    rcases lastIndexOfAux_spec t p (off + 1) _ k h with ⟨hb, hno⟩ | ⟨i, hk, hi, hpi, hmax⟩
+    · split at hb
+      · rename_i hp
+        injection hb with hb
+        refine Or.inr ⟨0, by omega, by simp, List.isPrefixOf_iff_prefix.1 hp, ?_⟩
+        intro j h1 h2
+        match j, h1 with
+        | j + 1, _ =>
+          rw [List.drop_succ_cons]
+          exact hno j (by simpa using h2)
+      · rename_i hp
+        refine Or.inl ⟨hb, ?_⟩
+        intro j h2
+        match j with
+        | 0 => rw [List.drop_zero]; exact fun hh => hp (List.isPrefixOf_iff_prefix.2 hh)
+        | j + 1 =>
+          rw [List.drop_succ_cons]
+          exact hno j (by simpa using h2)
+    · refine Or.inr ⟨i + 1, by omega, by simp only [List.length_cons]; omega, by simpa using hpi, ?_⟩
+      intro j h1 h2
+      match j, h1 with
+      | j + 1, h1 =>
+        rw [List.drop_succ_cons]
+        exact hmax j (by omega) (by simpa using h2)
+
 
 end Jmes.Utf8
